@@ -49,7 +49,7 @@ fn d2_timeout_frees_slot_and_late_response() {
 
 #[test]
 fn d3_nonce_cookie_non_ascii() {
-    let n = Nonce::new("obMatJos2abc\u{e9}").unwrap();
+    let n = Nonce::new("obMatJos2abc\u{c3}\u{a9}").unwrap();
     let r = std::panic::catch_unwind(|| n.security_features().is_ok());
     assert!(r.is_ok(), "security_features panicked");
 }
